@@ -47,6 +47,20 @@ theorem optimal_rounded_fl {β : Type} [Field β] [LinearOrder β] [IsStrictOrde
   optimal_rounded (F := Rd fl) (fun a => a.v) u hu (fun _ _ hab => hab)
     (fun _ _ _ _ h1 h2 => hfl _ _ (add_le_add h1 h2)) (fun a b => herr (a.v + b.v)) ⟨0⟩ rows (fun a b => ⟨C a b⟩) h π h0 hN hinc
 
+/-- **T2 `optimal_bracketed_fl`** — `optimal_bracketed` for the rounded addition `a ⊕ b = fl (a + b)` of ANY monotone rounding
+`fl` (no error bound needed): `D[0, N−1]` is the value of the returned list summed with `⊕` in the order given by the split table,
+and it is at least as good as EVERY bracketing, summed with `⊕`, of EVERY chain. The monotonicity of `⊕` is proved from that of
+`fl`. -/
+theorem optimal_bracketed_fl {β : Type} [Field β] [LinearOrder β] [IsStrictOrderedRing β]
+    (fl : β → β) (hfl : ∀ x y : β, x ≤ y → fl x ≤ fl y) (rows : Nat) (C : Nat → Nat → Rd fl) (h : 3 ≤ rows) :
+    (∃ t : Br, t.WF ∧ t.lo = 0 ∧ t.hi = rows - 2 ∧ t.chain = optimalPartition (⟨0⟩ : Rd fl) rows C 0 ∧
+      t.val C = (tables (⟨0⟩ : Rd fl) rows C 0).D 0 (rows - 2) ∧
+      ∀ t' : Br, t'.WF → t'.lo = 0 → t'.hi = rows - 2 → t.val C ≤ t'.val C) ∧
+    (∃ t : Br, t.WF ∧ t.lo = 0 ∧ t.hi = rows - 2 ∧ t.chain = optimalPartition (⟨0⟩ : Rd fl) rows C 1 ∧
+      t.val C = (tables (⟨0⟩ : Rd fl) rows C 1).D 0 (rows - 2) ∧
+      ∀ t' : Br, t'.WF → t'.lo = 0 → t'.hi = rows - 2 → t.val C ≥ t'.val C) :=
+  optimal_bracketed (β := Rd fl) (fun _ _ _ _ h1 h2 => hfl _ _ (add_le_add h1 h2)) ⟨0⟩ rows C h
+
 /-- non-vacuity: a rounding that is monotone, has relative error `1/8`, and whose addition is NOT associative -/
 example : let fl : Rat → Rat := fun x => x + x / 8
     (∀ x y : Rat, x ≤ y → fl x ≤ fl y) ∧ (∀ x : Rat, |fl x - x| ≤ (1 / 8) * |x|) ∧
